@@ -13,7 +13,8 @@ var fixedOps = []string{
 	"spec 4 tuple 2 blob text st 2 bnil s 41", "spec 4 tuple 2 blob blob sl bytes 2 bnil b 41", "spec 4 tuple 2 blob blob arr bytes 2 b 41 bnil",
 	"spec 4 tuple 2 int text st 2 nil s 41", "spec 4 tuple 2 list int text ifs 2 slnil k int s 41",
 	"spec 3 list tuple 1 int ifs 2 nil ifs 1 i int 1",
-	"enc 4 bigint big 9223372036854775808", "enc 4 bigint big -9223372036854775809", "cls 4 bigint big 9223372036854775808",
+	"spec 4 bigint big 9223372036854775808", "spec 4 counter big -9223372036854775809", "cls 4 bigint big 9223372036854775808",
+	"spec 4 varint big 9223372036854775808", "spec 4 varint big -9223372036854775809", "spec 4 varint big 9223372036854775807",
 	// D9 unsigned wrap
 	"enc 4 smallint i uint16 65535", "cls 4 smallint i uint16 65535",
 	"enc 4 smallint i uint16 32767", "spec 4 smallint i uint16 32767",
